@@ -54,7 +54,7 @@ class C12(Prop):
             if rng.random() < 0.06:
                 s, e = e + rng.choice([1, 60, DAY]), s
             cases.append({'kind': 'sim', 'start': s, 'stop': e, 'pre': rng.random() < 0.5, 'post': rng.random() < 0.5,
-                          'stream': 'random', 'naive': rng.random() < 0.15})
+                          'stream': 'random', 'naive': rng.random() < 0.15, 'flagkind': rng.choice(['bool', 'bool', 'np', 'int'])})
         if tier == 'thorough':
             for a in range(0, 70):
                 for b in range(a, 70):
@@ -76,7 +76,7 @@ class C12(Prop):
 
     def judge(self, c, impl, mod):
         j = Judgement()
-        j.key = (c['start'], c['stop'], c['pre'], c['post'], bool(c.get('naive')))
+        j.key = (c['start'], c['stop'], c['pre'], c['post'], bool(c.get('naive')), c.get('flagkind', 'bool'))
         if impl[0] == 'err' or mod[0] == 'err':
             mi = mod[1] if mod[0] == 'err' else 'ok'
             ii = impl[1] if impl[0] == 'err' else 'ok'
